@@ -79,6 +79,9 @@ func applyTrieOp(t *trie.Trie, m ref.TrieSet, op string) (fail string) {
 	case '+':
 		arg := []byte(w)
 		t.Add(arg)
+		if string(arg) != w {
+			return fmt.Sprintf("Add(%q) modified its argument", w)
+		}
 		for i := range arg { // the caller may reuse its buffer
 			arg[i] = 'z'
 		}
